@@ -295,3 +295,175 @@ def smoothed_path_list_surgery(c, closed, n, pattern):
         after = pattern[i] if i < joints else 's'
         if before != 'k' and after != 'k':
             c.ensures('segment-%d-untouched' % i, any(x is segs[i] for x in res))
+
+
+# ------------------------------------------------- the reductions inside smoothed_joint
+# cubic/line is computed by reversing both segments and calling smoothed_joint again (line/cubic);
+# cubic/cubic by trimming both cubics and three nested calls.  Proved here: what the nested calls
+# receive (the SAME maxjointsize and tightness) and how the pieces are put back together; the
+# nested calls themselves enter through the contract of smoothed_joint (pieces that join).
+
+def _nested_joint_spy(c, calls):
+    depth = {'n': 0}
+
+    def hook(ip, f, args, kwargs):
+        depth['n'] += 1
+        try:
+            if depth['n'] == 1:
+                return ip.run_func(f, list(args), kwargs)
+            k = len(calls)
+            seg0, seg1 = args[0], args[1]
+            A, B = c.cplx('A%d' % k), c.cplx('B%d' % k)
+            ns0 = c.new('path.Line', c.get(seg0, 'start'), A) if seg0.cls.name == 'Line' else seg0
+            elbow = c.new('path.CubicBezier', A if seg0.cls.name == 'Line' else c.get(seg0, 'end'), c.cplx('K%d' % k), c.cplx('M%d' % k),
+                          B if seg1.cls.name == 'Line' else c.get(seg1, 'start'))
+            ns1 = c.new('path.Line', B, c.get(seg1, 'end')) if seg1.cls.name == 'Line' else seg1
+            calls.append({'args': list(args), 'kwargs': dict(kwargs), 'out': (ns0, elbow, ns1)})
+            return (ns0, [elbow], ns1)
+        finally:
+            depth['n'] -= 1
+    c.ip.summaries['smoothing.smoothed_joint'] = hook
+
+
+def _joint_args(call):
+    a, k = call['args'], call['kwargs']
+    mj = a[2] if len(a) > 2 else k.get('maxjointsize', 3)
+    tg = a[3] if len(a) > 3 else k.get('tightness', Fraction(199, 100))
+    return a[0], a[1], mj, tg
+
+
+from fractions import Fraction  # noqa: E402
+
+
+@contract('C20', 'smoothing.smoothed_joint', params=[{'_no_bounded': True}])
+def cubic_line_joint_is_the_reversed_line_cubic_joint(c):
+    P, cub = mkseg(c, 4)
+    e = c.cplx('line_end')
+    c.assume(ops.ne(P[3], e))
+    line = c.new('path.Line', P[3], e)
+    mj, tg = c.real('maxjointsize'), c.real('tightness')
+    c.assume(ops.And(ops.lt(0, mj), ops.lt(0, tg), ops.lt(tg, 2)))
+    for cls in ('Line', 'CubicBezier'):
+        c.ip.summaries['path.%s.unit_tangent' % cls] = lambda ip, f, a, k: c.cplx('ut')
+    c.ip.summaries['path.CubicBezier.length'] = lambda ip, f, a, k: c.real('Lc')
+    c.ip.summaries['path.Line.length'] = lambda ip, f, a, k: c.real('Ll')
+    calls = []
+    _nested_joint_spy(c, calls)
+    s0, elbows, s1 = c.items(c.call('smoothing.smoothed_joint', cub, line, mj, tg))
+    elbows = list(c.items(elbows))
+    c.ensures('one-nested-call', len(calls) == 1)
+    if len(calls) != 1:
+        return
+    a0, a1, nmj, ntg = _joint_args(calls[0])
+    t = c.real('t')
+    c.ensures('nested-call-gets-the-reversed-line-then-the-reversed-cubic',
+              ops.And(c.isinstance(a0, 'path.Line'), c.isinstance(a1, 'path.CubicBezier'),
+                      ops.eq(c.get(a0, 'start'), e), ops.eq(c.get(a0, 'end'), P[3]),
+                      ops.eq(bez.bern([c.get(a1, f) for f in ('start', 'control1', 'control2', 'end')], t), bez.bern(P, 1 - t))))
+    c.ensures('nested-call-gets-the-same-maxjointsize-and-tightness', ops.And(ops.eq(nmj, mj), ops.eq(ntg, tg)))
+    rline_trimmed, relbow, rcub = calls[0]['out']
+    c.ensures('the-cubic-is-returned-untrimmed', s0 is cub)
+    c.ensures('one-elbow:the-nested-elbow-reversed', len(elbows) == 1 and
+              ops.eq(bez.bern([c.get(elbows[0], f) for f in ('start', 'control1', 'control2', 'end')], t),
+                     bez.bern([c.get(relbow, f) for f in ('start', 'control1', 'control2', 'end')], 1 - t)))
+    c.ensures('the-trimmed-line-is-the-nested-trimmed-line-reversed',
+              ops.And(ops.eq(c.get(s1, 'start'), c.get(rline_trimmed, 'end')), ops.eq(c.get(s1, 'end'), c.get(rline_trimmed, 'start'))))
+
+
+@contract('C20', 'smoothing.smoothed_joint', params=[{'_no_bounded': True}])
+def cubic_cubic_joint_is_three_nested_joints_over_trimmed_cubics(c):
+    P, c0 = mkseg(c, 4)
+    Q = [P[3]] + [c.cplx('Q%d' % i) for i in range(1, 4)]
+    c1 = c.new('path.CubicBezier', *Q)
+    mj, tg = c.real('maxjointsize'), c.real('tightness')
+    c.assume(ops.And(ops.lt(0, mj), ops.lt(0, tg), ops.lt(tg, 2)))
+    for cls in ('Line', 'CubicBezier'):
+        c.ip.summaries['path.%s.unit_tangent' % cls] = lambda ip, f, a, k: c.cplx('ut')
+    L0, L1 = c.real('L0'), c.real('L1')
+    c.assume(ops.And(ops.lt(0, L0), ops.lt(0, L1)))
+    c.ip.summaries['path.CubicBezier.length'] = lambda ip, f, a, k: L0 if a[0] is c0 else (L1 if a[0] is c1 else c.real('Lx'))
+    c.ip.summaries['path.Line.length'] = lambda ip, f, a, k: c.real('Ll')
+    il = []
+
+    def ilength(ip, f, a, k):
+        r = c.real('il%d' % len(il))
+        il.append((a[0], a[1], r))
+        return r
+    c.ip.summaries['path.CubicBezier.ilength'] = ilength
+    crops = []
+
+    def cropped(ip, f, a, k):
+        r = c.new('path.CubicBezier', *[c.cplx('crop%d_%d' % (len(crops), i)) for i in range(4)])
+        crops.append((a[0], a[1], a[2], r))
+        return r
+    c.ip.summaries['path.CubicBezier.cropped'] = cropped
+    calls = []
+    _nested_joint_spy(c, calls)
+    s0, elbows, s1 = c.items(c.call('smoothing.smoothed_joint', c0, c1, mj, tg))
+    elbows = list(c.items(elbows))
+    a = ops.If(ops.lt(mj / 2, ops.If(ops.lt(L1, L0), L1, L0) / 20), mj / 2, ops.If(ops.lt(L1, L0), L1, L0) / 20)
+    c.ensures('both-cubics-are-trimmed-by-arc-length-a/2',
+              len(il) == 2 and il[0][0] is c0 and il[1][0] is c1 and ops.And(ops.eq(il[0][1], L0 - a / 2), ops.eq(il[1][1], a / 2)))
+    c.ensures('trimmed-pieces-are-cropped(0,t0)-and-cropped(t1,1)',
+              len(crops) == 2 and crops[0][0] is c0 and crops[1][0] is c1 and
+              ops.And(ops.eq(crops[0][1], 0), ops.eq(crops[0][2], il[0][2]), ops.eq(crops[1][1], il[1][2]), ops.eq(crops[1][2], 1)) and
+              s0 is crops[0][3] and s1 is crops[1][3])
+    c.ensures('three-nested-joints', len(calls) == 3)
+    if len(calls) != 3:
+        return
+    for k, call in enumerate(calls):
+        _, _, nmj, ntg = _joint_args(call)
+        c.ensures('nested-joint-%d-gets-the-same-maxjointsize-and-tightness' % k, ops.And(ops.eq(nmj, mj), ops.eq(ntg, tg)))
+    q = P[3]
+    (x0, x1, _, _), (y0, y1, _, _), (z0, z1, _, _) = [_joint_args(cl) for cl in calls]
+    c.ensures('nested-joint-0:trimmed-cubic-then-the-line-to-the-corner',
+              x0 is s0 and c.isinstance(x1, 'path.Line') and ops.And(ops.eq(c.get(x1, 'start'), c.get(s0, 'end')), ops.eq(c.get(x1, 'end'), q)))
+    c.ensures('nested-joint-1:the-line-from-the-corner-then-the-trimmed-cubic',
+              y1 is s1 and c.isinstance(y0, 'path.Line') and ops.And(ops.eq(c.get(y0, 'start'), q), ops.eq(c.get(y0, 'end'), c.get(s1, 'start'))))
+    c.ensures('nested-joint-2:the-two-lines-as-trimmed-by-the-first-two', z0 is calls[0]['out'][2] and z1 is calls[1]['out'][0])
+    want = [calls[0]['out'][1], calls[2]['out'][0], calls[2]['out'][1], calls[2]['out'][2], calls[1]['out'][1]]
+    c.ensures('elbow-is-elbow0+line+corner-elbow+line+elbow1', len(elbows) == 5 and all(x is y for x, y in zip(elbows, want)))
+    for i in range(len(elbows) - 1):
+        c.ensures('elbow-pieces-%d-and-%d-join' % (i, i + 1), ops.eq(c.get(elbows[i], 'end'), c.get(elbows[i + 1], 'start')))
+    c.ensures('elbow-joins-the-trimmed-cubics', ops.And(ops.eq(c.get(s0, 'end'), c.get(elbows[0], 'start')), ops.eq(c.get(elbows[-1], 'end'), c.get(s1, 'start'))))
+
+
+@contract('C20', 'smoothing.smoothed_path', params=[{'kinds': k, '_bounded_only': True} for k in ('LL', 'LC', 'CL', 'CC')])
+def small_maxjointsize_on_long_segments_sampled(c, kinds):
+    """bounded stand-in: two segments of length ~100 meeting at a corner of 40..140 degrees and a
+    maxjointsize of 0.05..2 (far below the default 3): the result stays within maxjointsize of the
+    original path - measured against a dense sample of the original near the corner"""
+    from svgpathtools.smoothing import smoothed_path
+    import svgpathtools.path as sp
+    import cmath
+    q = c.cplx('q')
+    d0 = cmath.exp(1j * c.real('phi'))
+    turn = math.radians(40 + abs(c.real('turn')) % 100) * (1 if c.bool('left') else -1)
+    d1 = d0 * cmath.exp(1j * turn)
+    L0, L1 = 80 + abs(c.real('l0')) % 40, 80 + abs(c.real('l1')) % 40
+    a, e = q - L0 * d0, q + L1 * d1
+
+    def seg(k, p, r, din, dout, bend):
+        if k == 'L':
+            return sp.Line(p, r)
+        ln = abs(r - p)
+        return sp.CubicBezier(p, p + din * ln / 3, r - dout * ln / 3, r)
+    w = cmath.exp(0.5j)
+    s0 = seg(kinds[0], a, q, d0 * w, d0, 0)
+    s1 = seg(kinds[1], q, e, d1, d1 / w, 0)
+    path = sp.Path(s0, s1)
+    mj = 0.05 * 40 ** (abs(c.real('mj')) % 1.0)
+    out = c.outcome(lambda: smoothed_path(path, maxjointsize=mj))
+    c.ensures('returns', out.kind == 'ok')
+    if out.kind != 'ok':
+        return
+    res = out.value
+    # the original near the corner, densely (the smoothing may only touch a neighbourhood of the corner)
+    dense = [s0.point(1 - 0.1 * k / 4000.0) for k in range(4001)] + [s1.point(0.1 * k / 4000.0) for k in range(4001)]
+    worst = 0.0
+    for sgm in res:
+        for k in range(0, 41):
+            z = sgm.point(k / 40.0)
+            if abs(z - q) <= 6.0:
+                worst = max(worst, min(abs(z - o) for o in dense))
+    c.ensures('within-maxjointsize-of-the-original-near-the-corner', worst <= mj * 1.001 + 3e-3)
